@@ -15,6 +15,10 @@ def showBytes (b : Bytes) : String := Show.str b
 /-- memory bound for one decode: proportional to the input (constants reported in the evidence) -/
 def memBound (len : Nat) : Nat := 1024 * len + 131072
 
+/-- all failing clauses of a case (so that a failure of one property never masks another's) -/
+def verdictOf (errs : List String) (nt : Bool) : Verdict :=
+  if errs.isEmpty then .ok nt else .specfail (" ;; ".intercalate errs)
+
 def codec : P Verdict := do
   let kind ← P.tok
   match kind with
@@ -25,16 +29,18 @@ def codec : P Verdict := do
     let det ← P.bool
     let model := Codec.encode reg
     let nt := reg.length > 0
+    let mut errs : List String := []
     if model != bytes then
-      pure (.specfail s!"C06: library bytes differ from the V14 layout encoder: layout {showBytes model} library {showBytes bytes}")
-    else match Codec.decode bytes with
-      | some (r', []) =>
-        if r' != reg then pure (.specfail "C06: the V14 layout decoder reads the library's bytes back as a different registry")
-        else if !rt then pure (.specfail "C07: library decode(encode(r)) != r or input not fully consumed")
-        else if !det then pure (.specfail "C07: encoding twice gave different bytes")
-        else if Spec.wf reg && !Spec.wf r' then pure (.specfail "C01: decoding the library's own output of a well-formed registry is not well-formed")
-        else pure (.ok nt)
-      | _ => pure (.specfail "C06: the V14 layout decoder rejects or over/under-reads the library's bytes")
+      errs := errs ++ [s!"C06: library bytes differ from the V14 layout encoder: layout {showBytes model} library {showBytes bytes}"]
+    match Codec.decode bytes with
+    | some (r', []) =>
+      if r' != reg then errs := errs ++ ["C06: the V14 layout decoder reads the library's bytes back as a different registry"]
+      if Spec.wf reg && !Spec.wf r' then errs := errs ++ ["C01: decoding the library's own output of a well-formed registry is not well-formed"]
+    | _ => errs := errs ++ ["C06: the V14 layout decoder rejects or over/under-reads the library's bytes"]
+    if !rt then errs := errs ++ ["C07: library decode(encode(r)) != r or input not fully consumed"]
+    if !rt && Spec.wf reg then errs := errs ++ ["C01: decoding the library's own output of a well-formed registry does not give it back"]
+    if !det then errs := errs ++ ["C07: encoding twice gave different bytes"]
+    pure (verdictOf errs nt)
   | "coll" => do
     let _a ← P.registry
     let _b ← P.registry
@@ -47,10 +53,10 @@ def codec : P Verdict := do
     | "panic" => pure (.specfail "C14: decode panicked")
     | "err" => do
       let peak ← P.nat
-      if peak > memBound bytes.length then pure (.specfail s!"C14: decode allocated {peak} bytes for {bytes.length} input bytes")
-      else match model with
-        | none => pure (.ok true)
-        | some _ => pure (.specfail "C06: library rejects bytes the V14 layout decoder accepts")
+      let mut errs : List String := []
+      if peak > memBound bytes.length then errs := errs ++ [s!"C14: decode allocated {peak} bytes for {bytes.length} input bytes"]
+      if model.isSome then errs := errs ++ ["C06: library rejects bytes the V14 layout decoder accepts"]
+      pure (verdictOf errs true)
     | "ok" => do
       let reg ← P.registry
       let rem ← P.nat
@@ -58,16 +64,18 @@ def codec : P Verdict := do
       let oob ← P.bool
       let peak ← P.nat
       let consumed := bytes.take (bytes.length - rem)
-      if Codec.encode reg != consumed then pure (.specfail "C14: decoded registry does not re-encode (layout encoder) to exactly the consumed bytes")
-      else if !reenc then pure (.specfail "C14: decoded registry does not re-encode (library) to exactly the consumed bytes")
-      else if !oob then pure (.specfail "C14: resolve of an out-of-range id did not answer None")
+      let mut errs : List String := []
+      if Codec.encode reg != consumed then errs := errs ++ ["C14: decoded registry does not re-encode (layout encoder) to exactly the consumed bytes"]
+      if !reenc then errs := errs ++ ["C14: decoded registry does not re-encode (library) to exactly the consumed bytes"]
+      if !oob then errs := errs ++ ["C14: resolve of an out-of-range id did not answer None"]
+      if peak > memBound bytes.length then errs := errs ++ [s!"C14: decode allocated {peak} bytes for {bytes.length} input bytes"]
+      match model with
+      | some (r', rest) =>
+        if r' != reg || rest.length != rem then errs := errs ++ ["C06: library and V14 layout decoder decode different values / remainders"]
+      | none => errs := errs ++ ["C06: library accepts bytes the V14 layout decoder rejects"]
+      if !errs.isEmpty then pure (verdictOf errs true)
       else if resolve reg reg.length != none then pure (.diff "model resolve out of range")
-      else if peak > memBound bytes.length then pure (.specfail s!"C14: decode allocated {peak} bytes for {bytes.length} input bytes")
-      else match model with
-        | some (r', rest) =>
-          if r' != reg || rest.length != rem then pure (.specfail "C06: library and V14 layout decoder decode different values / remainders")
-          else pure (.ok true)
-        | none => pure (.specfail "C06: library accepts bytes the V14 layout decoder rejects")
+      else pure (.ok true)
     | _ => P.fail
   | _ => P.fail
 
